@@ -16,7 +16,7 @@ Python data model:
 """
 from __future__ import annotations
 import ast
-from ..alg import Rat, atom_id, is_zero, fmt_rat
+from ..alg import atom_key, Rat, atom_id, is_zero, fmt_rat
 from ..srcmodel import SourceModel, AnalysisError, MESH_CLASSES
 from ..arrays import AbstractRaise, R, ZERO, ONE, snap, Arr, Box, View, compare_scalar, opaque_fn
 from ..model import World, AX, DIM, atom_array, FACES
@@ -298,6 +298,26 @@ def job(args):
         okb, why = bc_equal_but_distinct(w, bcA, cp.attrs.get('BCs'))
         ob('O6', 'cell.CellVariable.copy/BCs', okb, why, mc.loc())
         ob('O3', 'cell.CellVariable.copy', not [e for e in w.ctx.events if e[0] == 'input-mutated'], "no operand written", mc.loc())
+        # a second copy of the same variable after its boundary conditions were edited: it must carry the *current* coefficients
+        # in objects of its own, shared neither with the original nor with the first copy (state kept between calls - a
+        # mutable default argument, a module-level memo - shows here)
+        try:
+            w.interp.set_attr(A_.attrs['BCs'].attrs['left'], 'c', Rat.atom(('edited-c',)), None)
+            cp2 = w.interp.call_function(mc, [A_], self_obj=A_)
+            ok2 = isinstance(cp2, AObj) and cp2 is not cp and cp2 is not A_
+            b2 = cp2.attrs.get('BCs') if ok2 else None
+            fresh = ok2 and b2 is not None and b2 is not cp.attrs.get('BCs') and b2 is not A_.attrs.get('BCs')
+            cur = False
+            if fresh:
+                cv = snap(b2.attrs['left'].attrs['_c'])
+                cur = any(isinstance(atom_key(a_), tuple) and atom_key(a_)[0] == 'edited-c' for a_ in cv.at(tuple(ZERO for _ in cv.shape)).atoms())
+            sh2 = [k for k in boxes_of(cp2) if k in boxes_of(cp) or k in boxes_of(A_)] if ok2 else ['?']
+            ob('O6', 'cell.CellVariable.copy/second-copy', bool(fresh and cur and not sh2),
+               ("second copy after an edit: " + ("BC object shared with the original or the first copy; " if not fresh else '') +
+                ("carries the coefficients from before the edit; " if fresh and not cur else '') + (f"shares storage {sh2[:3]}" if sh2 else ''))
+               if not (fresh and cur and not sh2) else "a second copy after an edit is current and independent of the first", mc.loc())
+        except AbstractRaise as e:
+            ob('O6', 'cell.CellVariable.copy/second-copy', False, f"raises {e.exc}: {e.msg}", mc.loc())
     # funceval / celleval
     for fname in ('funceval', 'celleval'):
         ff = sm.func('cell', fname)
